@@ -401,6 +401,13 @@ func (w *balWorld) signerPool() []neotest.Signer {
 	if w.c.Committee.ScriptHash() != w.c.Alphabet.ScriptHash() {
 		p = append(p, w.c.Committee, w.c.Member(0))
 	}
+	if w.c.FormerAlphabet != nil {
+		p = append(p, w.c.FormerAlphabet)
+		if w.c.FormerCommittee.ScriptHash() != w.c.FormerAlphabet.ScriptHash() {
+			p = append(p, w.c.FormerCommittee)
+		}
+		return p
+	}
 	if vh := w.c.Validators.ScriptHash(); vh != w.c.Alphabet.ScriptHash() && vh != w.c.Committee.ScriptHash() {
 		p = append(p, w.c.Validators) // consensus nodes of a chain with fewer validators than committee members: not the Alphabet
 	}
